@@ -18,8 +18,9 @@ Import ListNotations.
 Open Scope nat_scope.
 
 (* the five seeded defects, the NotifyMerger without stop cases (Mut6: the code before
-   the repair of the notify-after-Close hang) and the current code (MutNone) *)
-Inductive mutation := MutNone | Mut1 | Mut2 | Mut3 | Mut4 | Mut5 | Mut6.
+   the repair of the notify-after-Close hang), the merger's sleep decision that ignores a pending
+   hand-over (Mut7: the code before the repair of the persistence stall, 683d401) and the current code (MutNone) *)
+Inductive mutation := MutNone | Mut1 | Mut2 | Mut3 | Mut4 | Mut5 | Mut6 | Mut7.
 
 Record config := {
   c_cap : nat;                          (* MaxPreMergerBatches *)
@@ -70,6 +71,7 @@ Record state := {
   z_lk : bool;
   z_mp : mpc;
   z_pongs : nat;
+  z_hp : bool;
   z_pp : ppc;
   z_cp : cpc;
   z_wwait : nat;
@@ -87,65 +89,67 @@ Record state := {
 }.
 
 Definition set_top (v : nat) (s : state) : state :=
-  {| z_top := v; z_mid := z_mid s; z_base := z_base s; z_closed := z_closed s; z_armed := z_armed s; z_incc := z_incc s; z_out := z_out s; z_onext := z_onext s; z_oready := z_oready s; z_q := z_q s; z_lk := z_lk s; z_mp := z_mp s; z_pongs := z_pongs s; z_pp := z_pp s; z_cp := z_cp s; z_wwait := z_wwait s; z_wwoken := z_wwoken s; z_wsort := z_wsort s; z_wclcur := z_wclcur s; z_wclold := z_wclold s; z_wok := z_wok s; z_werr := z_werr s; z_nsyn := z_nsyn s; z_nasy := z_nasy s; z_nans := z_nans s; z_naret := z_naret s; z_nerr := z_nerr s |}.
+  {| z_top := v; z_mid := z_mid s; z_base := z_base s; z_closed := z_closed s; z_armed := z_armed s; z_incc := z_incc s; z_out := z_out s; z_onext := z_onext s; z_oready := z_oready s; z_q := z_q s; z_lk := z_lk s; z_mp := z_mp s; z_pongs := z_pongs s; z_hp := z_hp s; z_pp := z_pp s; z_cp := z_cp s; z_wwait := z_wwait s; z_wwoken := z_wwoken s; z_wsort := z_wsort s; z_wclcur := z_wclcur s; z_wclold := z_wclold s; z_wok := z_wok s; z_werr := z_werr s; z_nsyn := z_nsyn s; z_nasy := z_nasy s; z_nans := z_nans s; z_naret := z_naret s; z_nerr := z_nerr s |}.
 Definition set_mid (v : bool) (s : state) : state :=
-  {| z_top := z_top s; z_mid := v; z_base := z_base s; z_closed := z_closed s; z_armed := z_armed s; z_incc := z_incc s; z_out := z_out s; z_onext := z_onext s; z_oready := z_oready s; z_q := z_q s; z_lk := z_lk s; z_mp := z_mp s; z_pongs := z_pongs s; z_pp := z_pp s; z_cp := z_cp s; z_wwait := z_wwait s; z_wwoken := z_wwoken s; z_wsort := z_wsort s; z_wclcur := z_wclcur s; z_wclold := z_wclold s; z_wok := z_wok s; z_werr := z_werr s; z_nsyn := z_nsyn s; z_nasy := z_nasy s; z_nans := z_nans s; z_naret := z_naret s; z_nerr := z_nerr s |}.
+  {| z_top := z_top s; z_mid := v; z_base := z_base s; z_closed := z_closed s; z_armed := z_armed s; z_incc := z_incc s; z_out := z_out s; z_onext := z_onext s; z_oready := z_oready s; z_q := z_q s; z_lk := z_lk s; z_mp := z_mp s; z_pongs := z_pongs s; z_hp := z_hp s; z_pp := z_pp s; z_cp := z_cp s; z_wwait := z_wwait s; z_wwoken := z_wwoken s; z_wsort := z_wsort s; z_wclcur := z_wclcur s; z_wclold := z_wclold s; z_wok := z_wok s; z_werr := z_werr s; z_nsyn := z_nsyn s; z_nasy := z_nasy s; z_nans := z_nans s; z_naret := z_naret s; z_nerr := z_nerr s |}.
 Definition set_base (v : bool) (s : state) : state :=
-  {| z_top := z_top s; z_mid := z_mid s; z_base := v; z_closed := z_closed s; z_armed := z_armed s; z_incc := z_incc s; z_out := z_out s; z_onext := z_onext s; z_oready := z_oready s; z_q := z_q s; z_lk := z_lk s; z_mp := z_mp s; z_pongs := z_pongs s; z_pp := z_pp s; z_cp := z_cp s; z_wwait := z_wwait s; z_wwoken := z_wwoken s; z_wsort := z_wsort s; z_wclcur := z_wclcur s; z_wclold := z_wclold s; z_wok := z_wok s; z_werr := z_werr s; z_nsyn := z_nsyn s; z_nasy := z_nasy s; z_nans := z_nans s; z_naret := z_naret s; z_nerr := z_nerr s |}.
+  {| z_top := z_top s; z_mid := z_mid s; z_base := v; z_closed := z_closed s; z_armed := z_armed s; z_incc := z_incc s; z_out := z_out s; z_onext := z_onext s; z_oready := z_oready s; z_q := z_q s; z_lk := z_lk s; z_mp := z_mp s; z_pongs := z_pongs s; z_hp := z_hp s; z_pp := z_pp s; z_cp := z_cp s; z_wwait := z_wwait s; z_wwoken := z_wwoken s; z_wsort := z_wsort s; z_wclcur := z_wclcur s; z_wclold := z_wclold s; z_wok := z_wok s; z_werr := z_werr s; z_nsyn := z_nsyn s; z_nasy := z_nasy s; z_nans := z_nans s; z_naret := z_naret s; z_nerr := z_nerr s |}.
 Definition set_closed (v : bool) (s : state) : state :=
-  {| z_top := z_top s; z_mid := z_mid s; z_base := z_base s; z_closed := v; z_armed := z_armed s; z_incc := z_incc s; z_out := z_out s; z_onext := z_onext s; z_oready := z_oready s; z_q := z_q s; z_lk := z_lk s; z_mp := z_mp s; z_pongs := z_pongs s; z_pp := z_pp s; z_cp := z_cp s; z_wwait := z_wwait s; z_wwoken := z_wwoken s; z_wsort := z_wsort s; z_wclcur := z_wclcur s; z_wclold := z_wclold s; z_wok := z_wok s; z_werr := z_werr s; z_nsyn := z_nsyn s; z_nasy := z_nasy s; z_nans := z_nans s; z_naret := z_naret s; z_nerr := z_nerr s |}.
+  {| z_top := z_top s; z_mid := z_mid s; z_base := z_base s; z_closed := v; z_armed := z_armed s; z_incc := z_incc s; z_out := z_out s; z_onext := z_onext s; z_oready := z_oready s; z_q := z_q s; z_lk := z_lk s; z_mp := z_mp s; z_pongs := z_pongs s; z_hp := z_hp s; z_pp := z_pp s; z_cp := z_cp s; z_wwait := z_wwait s; z_wwoken := z_wwoken s; z_wsort := z_wsort s; z_wclcur := z_wclcur s; z_wclold := z_wclold s; z_wok := z_wok s; z_werr := z_werr s; z_nsyn := z_nsyn s; z_nasy := z_nasy s; z_nans := z_nans s; z_naret := z_naret s; z_nerr := z_nerr s |}.
 Definition set_armed (v : bool) (s : state) : state :=
-  {| z_top := z_top s; z_mid := z_mid s; z_base := z_base s; z_closed := z_closed s; z_armed := v; z_incc := z_incc s; z_out := z_out s; z_onext := z_onext s; z_oready := z_oready s; z_q := z_q s; z_lk := z_lk s; z_mp := z_mp s; z_pongs := z_pongs s; z_pp := z_pp s; z_cp := z_cp s; z_wwait := z_wwait s; z_wwoken := z_wwoken s; z_wsort := z_wsort s; z_wclcur := z_wclcur s; z_wclold := z_wclold s; z_wok := z_wok s; z_werr := z_werr s; z_nsyn := z_nsyn s; z_nasy := z_nasy s; z_nans := z_nans s; z_naret := z_naret s; z_nerr := z_nerr s |}.
+  {| z_top := z_top s; z_mid := z_mid s; z_base := z_base s; z_closed := z_closed s; z_armed := v; z_incc := z_incc s; z_out := z_out s; z_onext := z_onext s; z_oready := z_oready s; z_q := z_q s; z_lk := z_lk s; z_mp := z_mp s; z_pongs := z_pongs s; z_hp := z_hp s; z_pp := z_pp s; z_cp := z_cp s; z_wwait := z_wwait s; z_wwoken := z_wwoken s; z_wsort := z_wsort s; z_wclcur := z_wclcur s; z_wclold := z_wclold s; z_wok := z_wok s; z_werr := z_werr s; z_nsyn := z_nsyn s; z_nasy := z_nasy s; z_nans := z_nans s; z_naret := z_naret s; z_nerr := z_nerr s |}.
 Definition set_incc (v : bool) (s : state) : state :=
-  {| z_top := z_top s; z_mid := z_mid s; z_base := z_base s; z_closed := z_closed s; z_armed := z_armed s; z_incc := v; z_out := z_out s; z_onext := z_onext s; z_oready := z_oready s; z_q := z_q s; z_lk := z_lk s; z_mp := z_mp s; z_pongs := z_pongs s; z_pp := z_pp s; z_cp := z_cp s; z_wwait := z_wwait s; z_wwoken := z_wwoken s; z_wsort := z_wsort s; z_wclcur := z_wclcur s; z_wclold := z_wclold s; z_wok := z_wok s; z_werr := z_werr s; z_nsyn := z_nsyn s; z_nasy := z_nasy s; z_nans := z_nans s; z_naret := z_naret s; z_nerr := z_nerr s |}.
+  {| z_top := z_top s; z_mid := z_mid s; z_base := z_base s; z_closed := z_closed s; z_armed := z_armed s; z_incc := v; z_out := z_out s; z_onext := z_onext s; z_oready := z_oready s; z_q := z_q s; z_lk := z_lk s; z_mp := z_mp s; z_pongs := z_pongs s; z_hp := z_hp s; z_pp := z_pp s; z_cp := z_cp s; z_wwait := z_wwait s; z_wwoken := z_wwoken s; z_wsort := z_wsort s; z_wclcur := z_wclcur s; z_wclold := z_wclold s; z_wok := z_wok s; z_werr := z_werr s; z_nsyn := z_nsyn s; z_nasy := z_nasy s; z_nans := z_nans s; z_naret := z_naret s; z_nerr := z_nerr s |}.
 Definition set_out (v : option nat) (s : state) : state :=
-  {| z_top := z_top s; z_mid := z_mid s; z_base := z_base s; z_closed := z_closed s; z_armed := z_armed s; z_incc := z_incc s; z_out := v; z_onext := z_onext s; z_oready := z_oready s; z_q := z_q s; z_lk := z_lk s; z_mp := z_mp s; z_pongs := z_pongs s; z_pp := z_pp s; z_cp := z_cp s; z_wwait := z_wwait s; z_wwoken := z_wwoken s; z_wsort := z_wsort s; z_wclcur := z_wclcur s; z_wclold := z_wclold s; z_wok := z_wok s; z_werr := z_werr s; z_nsyn := z_nsyn s; z_nasy := z_nasy s; z_nans := z_nans s; z_naret := z_naret s; z_nerr := z_nerr s |}.
+  {| z_top := z_top s; z_mid := z_mid s; z_base := z_base s; z_closed := z_closed s; z_armed := z_armed s; z_incc := z_incc s; z_out := v; z_onext := z_onext s; z_oready := z_oready s; z_q := z_q s; z_lk := z_lk s; z_mp := z_mp s; z_pongs := z_pongs s; z_hp := z_hp s; z_pp := z_pp s; z_cp := z_cp s; z_wwait := z_wwait s; z_wwoken := z_wwoken s; z_wsort := z_wsort s; z_wclcur := z_wclcur s; z_wclold := z_wclold s; z_wok := z_wok s; z_werr := z_werr s; z_nsyn := z_nsyn s; z_nasy := z_nasy s; z_nans := z_nans s; z_naret := z_naret s; z_nerr := z_nerr s |}.
 Definition set_onext (v : nat) (s : state) : state :=
-  {| z_top := z_top s; z_mid := z_mid s; z_base := z_base s; z_closed := z_closed s; z_armed := z_armed s; z_incc := z_incc s; z_out := z_out s; z_onext := v; z_oready := z_oready s; z_q := z_q s; z_lk := z_lk s; z_mp := z_mp s; z_pongs := z_pongs s; z_pp := z_pp s; z_cp := z_cp s; z_wwait := z_wwait s; z_wwoken := z_wwoken s; z_wsort := z_wsort s; z_wclcur := z_wclcur s; z_wclold := z_wclold s; z_wok := z_wok s; z_werr := z_werr s; z_nsyn := z_nsyn s; z_nasy := z_nasy s; z_nans := z_nans s; z_naret := z_naret s; z_nerr := z_nerr s |}.
+  {| z_top := z_top s; z_mid := z_mid s; z_base := z_base s; z_closed := z_closed s; z_armed := z_armed s; z_incc := z_incc s; z_out := z_out s; z_onext := v; z_oready := z_oready s; z_q := z_q s; z_lk := z_lk s; z_mp := z_mp s; z_pongs := z_pongs s; z_hp := z_hp s; z_pp := z_pp s; z_cp := z_cp s; z_wwait := z_wwait s; z_wwoken := z_wwoken s; z_wsort := z_wsort s; z_wclcur := z_wclcur s; z_wclold := z_wclold s; z_wok := z_wok s; z_werr := z_werr s; z_nsyn := z_nsyn s; z_nasy := z_nasy s; z_nans := z_nans s; z_naret := z_naret s; z_nerr := z_nerr s |}.
 Definition set_oready (v : bool) (s : state) : state :=
-  {| z_top := z_top s; z_mid := z_mid s; z_base := z_base s; z_closed := z_closed s; z_armed := z_armed s; z_incc := z_incc s; z_out := z_out s; z_onext := z_onext s; z_oready := v; z_q := z_q s; z_lk := z_lk s; z_mp := z_mp s; z_pongs := z_pongs s; z_pp := z_pp s; z_cp := z_cp s; z_wwait := z_wwait s; z_wwoken := z_wwoken s; z_wsort := z_wsort s; z_wclcur := z_wclcur s; z_wclold := z_wclold s; z_wok := z_wok s; z_werr := z_werr s; z_nsyn := z_nsyn s; z_nasy := z_nasy s; z_nans := z_nans s; z_naret := z_naret s; z_nerr := z_nerr s |}.
+  {| z_top := z_top s; z_mid := z_mid s; z_base := z_base s; z_closed := z_closed s; z_armed := z_armed s; z_incc := z_incc s; z_out := z_out s; z_onext := z_onext s; z_oready := v; z_q := z_q s; z_lk := z_lk s; z_mp := z_mp s; z_pongs := z_pongs s; z_hp := z_hp s; z_pp := z_pp s; z_cp := z_cp s; z_wwait := z_wwait s; z_wwoken := z_wwoken s; z_wsort := z_wsort s; z_wclcur := z_wclcur s; z_wclold := z_wclold s; z_wok := z_wok s; z_werr := z_werr s; z_nsyn := z_nsyn s; z_nasy := z_nasy s; z_nans := z_nans s; z_naret := z_naret s; z_nerr := z_nerr s |}.
 Definition set_q (v : list bool) (s : state) : state :=
-  {| z_top := z_top s; z_mid := z_mid s; z_base := z_base s; z_closed := z_closed s; z_armed := z_armed s; z_incc := z_incc s; z_out := z_out s; z_onext := z_onext s; z_oready := z_oready s; z_q := v; z_lk := z_lk s; z_mp := z_mp s; z_pongs := z_pongs s; z_pp := z_pp s; z_cp := z_cp s; z_wwait := z_wwait s; z_wwoken := z_wwoken s; z_wsort := z_wsort s; z_wclcur := z_wclcur s; z_wclold := z_wclold s; z_wok := z_wok s; z_werr := z_werr s; z_nsyn := z_nsyn s; z_nasy := z_nasy s; z_nans := z_nans s; z_naret := z_naret s; z_nerr := z_nerr s |}.
+  {| z_top := z_top s; z_mid := z_mid s; z_base := z_base s; z_closed := z_closed s; z_armed := z_armed s; z_incc := z_incc s; z_out := z_out s; z_onext := z_onext s; z_oready := z_oready s; z_q := v; z_lk := z_lk s; z_mp := z_mp s; z_pongs := z_pongs s; z_hp := z_hp s; z_pp := z_pp s; z_cp := z_cp s; z_wwait := z_wwait s; z_wwoken := z_wwoken s; z_wsort := z_wsort s; z_wclcur := z_wclcur s; z_wclold := z_wclold s; z_wok := z_wok s; z_werr := z_werr s; z_nsyn := z_nsyn s; z_nasy := z_nasy s; z_nans := z_nans s; z_naret := z_naret s; z_nerr := z_nerr s |}.
 Definition set_lk (v : bool) (s : state) : state :=
-  {| z_top := z_top s; z_mid := z_mid s; z_base := z_base s; z_closed := z_closed s; z_armed := z_armed s; z_incc := z_incc s; z_out := z_out s; z_onext := z_onext s; z_oready := z_oready s; z_q := z_q s; z_lk := v; z_mp := z_mp s; z_pongs := z_pongs s; z_pp := z_pp s; z_cp := z_cp s; z_wwait := z_wwait s; z_wwoken := z_wwoken s; z_wsort := z_wsort s; z_wclcur := z_wclcur s; z_wclold := z_wclold s; z_wok := z_wok s; z_werr := z_werr s; z_nsyn := z_nsyn s; z_nasy := z_nasy s; z_nans := z_nans s; z_naret := z_naret s; z_nerr := z_nerr s |}.
+  {| z_top := z_top s; z_mid := z_mid s; z_base := z_base s; z_closed := z_closed s; z_armed := z_armed s; z_incc := z_incc s; z_out := z_out s; z_onext := z_onext s; z_oready := z_oready s; z_q := z_q s; z_lk := v; z_mp := z_mp s; z_pongs := z_pongs s; z_hp := z_hp s; z_pp := z_pp s; z_cp := z_cp s; z_wwait := z_wwait s; z_wwoken := z_wwoken s; z_wsort := z_wsort s; z_wclcur := z_wclcur s; z_wclold := z_wclold s; z_wok := z_wok s; z_werr := z_werr s; z_nsyn := z_nsyn s; z_nasy := z_nasy s; z_nans := z_nans s; z_naret := z_naret s; z_nerr := z_nerr s |}.
 Definition set_mp (v : mpc) (s : state) : state :=
-  {| z_top := z_top s; z_mid := z_mid s; z_base := z_base s; z_closed := z_closed s; z_armed := z_armed s; z_incc := z_incc s; z_out := z_out s; z_onext := z_onext s; z_oready := z_oready s; z_q := z_q s; z_lk := z_lk s; z_mp := v; z_pongs := z_pongs s; z_pp := z_pp s; z_cp := z_cp s; z_wwait := z_wwait s; z_wwoken := z_wwoken s; z_wsort := z_wsort s; z_wclcur := z_wclcur s; z_wclold := z_wclold s; z_wok := z_wok s; z_werr := z_werr s; z_nsyn := z_nsyn s; z_nasy := z_nasy s; z_nans := z_nans s; z_naret := z_naret s; z_nerr := z_nerr s |}.
+  {| z_top := z_top s; z_mid := z_mid s; z_base := z_base s; z_closed := z_closed s; z_armed := z_armed s; z_incc := z_incc s; z_out := z_out s; z_onext := z_onext s; z_oready := z_oready s; z_q := z_q s; z_lk := z_lk s; z_mp := v; z_pongs := z_pongs s; z_hp := z_hp s; z_pp := z_pp s; z_cp := z_cp s; z_wwait := z_wwait s; z_wwoken := z_wwoken s; z_wsort := z_wsort s; z_wclcur := z_wclcur s; z_wclold := z_wclold s; z_wok := z_wok s; z_werr := z_werr s; z_nsyn := z_nsyn s; z_nasy := z_nasy s; z_nans := z_nans s; z_naret := z_naret s; z_nerr := z_nerr s |}.
 Definition set_pongs (v : nat) (s : state) : state :=
-  {| z_top := z_top s; z_mid := z_mid s; z_base := z_base s; z_closed := z_closed s; z_armed := z_armed s; z_incc := z_incc s; z_out := z_out s; z_onext := z_onext s; z_oready := z_oready s; z_q := z_q s; z_lk := z_lk s; z_mp := z_mp s; z_pongs := v; z_pp := z_pp s; z_cp := z_cp s; z_wwait := z_wwait s; z_wwoken := z_wwoken s; z_wsort := z_wsort s; z_wclcur := z_wclcur s; z_wclold := z_wclold s; z_wok := z_wok s; z_werr := z_werr s; z_nsyn := z_nsyn s; z_nasy := z_nasy s; z_nans := z_nans s; z_naret := z_naret s; z_nerr := z_nerr s |}.
+  {| z_top := z_top s; z_mid := z_mid s; z_base := z_base s; z_closed := z_closed s; z_armed := z_armed s; z_incc := z_incc s; z_out := z_out s; z_onext := z_onext s; z_oready := z_oready s; z_q := z_q s; z_lk := z_lk s; z_mp := z_mp s; z_pongs := v; z_hp := z_hp s; z_pp := z_pp s; z_cp := z_cp s; z_wwait := z_wwait s; z_wwoken := z_wwoken s; z_wsort := z_wsort s; z_wclcur := z_wclcur s; z_wclold := z_wclold s; z_wok := z_wok s; z_werr := z_werr s; z_nsyn := z_nsyn s; z_nasy := z_nasy s; z_nans := z_nans s; z_naret := z_naret s; z_nerr := z_nerr s |}.
+Definition set_hp (v : bool) (s : state) : state :=
+  {| z_top := z_top s; z_mid := z_mid s; z_base := z_base s; z_closed := z_closed s; z_armed := z_armed s; z_incc := z_incc s; z_out := z_out s; z_onext := z_onext s; z_oready := z_oready s; z_q := z_q s; z_lk := z_lk s; z_mp := z_mp s; z_pongs := z_pongs s; z_hp := v; z_pp := z_pp s; z_cp := z_cp s; z_wwait := z_wwait s; z_wwoken := z_wwoken s; z_wsort := z_wsort s; z_wclcur := z_wclcur s; z_wclold := z_wclold s; z_wok := z_wok s; z_werr := z_werr s; z_nsyn := z_nsyn s; z_nasy := z_nasy s; z_nans := z_nans s; z_naret := z_naret s; z_nerr := z_nerr s |}.
 Definition set_pp (v : ppc) (s : state) : state :=
-  {| z_top := z_top s; z_mid := z_mid s; z_base := z_base s; z_closed := z_closed s; z_armed := z_armed s; z_incc := z_incc s; z_out := z_out s; z_onext := z_onext s; z_oready := z_oready s; z_q := z_q s; z_lk := z_lk s; z_mp := z_mp s; z_pongs := z_pongs s; z_pp := v; z_cp := z_cp s; z_wwait := z_wwait s; z_wwoken := z_wwoken s; z_wsort := z_wsort s; z_wclcur := z_wclcur s; z_wclold := z_wclold s; z_wok := z_wok s; z_werr := z_werr s; z_nsyn := z_nsyn s; z_nasy := z_nasy s; z_nans := z_nans s; z_naret := z_naret s; z_nerr := z_nerr s |}.
+  {| z_top := z_top s; z_mid := z_mid s; z_base := z_base s; z_closed := z_closed s; z_armed := z_armed s; z_incc := z_incc s; z_out := z_out s; z_onext := z_onext s; z_oready := z_oready s; z_q := z_q s; z_lk := z_lk s; z_mp := z_mp s; z_pongs := z_pongs s; z_hp := z_hp s; z_pp := v; z_cp := z_cp s; z_wwait := z_wwait s; z_wwoken := z_wwoken s; z_wsort := z_wsort s; z_wclcur := z_wclcur s; z_wclold := z_wclold s; z_wok := z_wok s; z_werr := z_werr s; z_nsyn := z_nsyn s; z_nasy := z_nasy s; z_nans := z_nans s; z_naret := z_naret s; z_nerr := z_nerr s |}.
 Definition set_cp (v : cpc) (s : state) : state :=
-  {| z_top := z_top s; z_mid := z_mid s; z_base := z_base s; z_closed := z_closed s; z_armed := z_armed s; z_incc := z_incc s; z_out := z_out s; z_onext := z_onext s; z_oready := z_oready s; z_q := z_q s; z_lk := z_lk s; z_mp := z_mp s; z_pongs := z_pongs s; z_pp := z_pp s; z_cp := v; z_wwait := z_wwait s; z_wwoken := z_wwoken s; z_wsort := z_wsort s; z_wclcur := z_wclcur s; z_wclold := z_wclold s; z_wok := z_wok s; z_werr := z_werr s; z_nsyn := z_nsyn s; z_nasy := z_nasy s; z_nans := z_nans s; z_naret := z_naret s; z_nerr := z_nerr s |}.
+  {| z_top := z_top s; z_mid := z_mid s; z_base := z_base s; z_closed := z_closed s; z_armed := z_armed s; z_incc := z_incc s; z_out := z_out s; z_onext := z_onext s; z_oready := z_oready s; z_q := z_q s; z_lk := z_lk s; z_mp := z_mp s; z_pongs := z_pongs s; z_hp := z_hp s; z_pp := z_pp s; z_cp := v; z_wwait := z_wwait s; z_wwoken := z_wwoken s; z_wsort := z_wsort s; z_wclcur := z_wclcur s; z_wclold := z_wclold s; z_wok := z_wok s; z_werr := z_werr s; z_nsyn := z_nsyn s; z_nasy := z_nasy s; z_nans := z_nans s; z_naret := z_naret s; z_nerr := z_nerr s |}.
 Definition set_wwait (v : nat) (s : state) : state :=
-  {| z_top := z_top s; z_mid := z_mid s; z_base := z_base s; z_closed := z_closed s; z_armed := z_armed s; z_incc := z_incc s; z_out := z_out s; z_onext := z_onext s; z_oready := z_oready s; z_q := z_q s; z_lk := z_lk s; z_mp := z_mp s; z_pongs := z_pongs s; z_pp := z_pp s; z_cp := z_cp s; z_wwait := v; z_wwoken := z_wwoken s; z_wsort := z_wsort s; z_wclcur := z_wclcur s; z_wclold := z_wclold s; z_wok := z_wok s; z_werr := z_werr s; z_nsyn := z_nsyn s; z_nasy := z_nasy s; z_nans := z_nans s; z_naret := z_naret s; z_nerr := z_nerr s |}.
+  {| z_top := z_top s; z_mid := z_mid s; z_base := z_base s; z_closed := z_closed s; z_armed := z_armed s; z_incc := z_incc s; z_out := z_out s; z_onext := z_onext s; z_oready := z_oready s; z_q := z_q s; z_lk := z_lk s; z_mp := z_mp s; z_pongs := z_pongs s; z_hp := z_hp s; z_pp := z_pp s; z_cp := z_cp s; z_wwait := v; z_wwoken := z_wwoken s; z_wsort := z_wsort s; z_wclcur := z_wclcur s; z_wclold := z_wclold s; z_wok := z_wok s; z_werr := z_werr s; z_nsyn := z_nsyn s; z_nasy := z_nasy s; z_nans := z_nans s; z_naret := z_naret s; z_nerr := z_nerr s |}.
 Definition set_wwoken (v : nat) (s : state) : state :=
-  {| z_top := z_top s; z_mid := z_mid s; z_base := z_base s; z_closed := z_closed s; z_armed := z_armed s; z_incc := z_incc s; z_out := z_out s; z_onext := z_onext s; z_oready := z_oready s; z_q := z_q s; z_lk := z_lk s; z_mp := z_mp s; z_pongs := z_pongs s; z_pp := z_pp s; z_cp := z_cp s; z_wwait := z_wwait s; z_wwoken := v; z_wsort := z_wsort s; z_wclcur := z_wclcur s; z_wclold := z_wclold s; z_wok := z_wok s; z_werr := z_werr s; z_nsyn := z_nsyn s; z_nasy := z_nasy s; z_nans := z_nans s; z_naret := z_naret s; z_nerr := z_nerr s |}.
+  {| z_top := z_top s; z_mid := z_mid s; z_base := z_base s; z_closed := z_closed s; z_armed := z_armed s; z_incc := z_incc s; z_out := z_out s; z_onext := z_onext s; z_oready := z_oready s; z_q := z_q s; z_lk := z_lk s; z_mp := z_mp s; z_pongs := z_pongs s; z_hp := z_hp s; z_pp := z_pp s; z_cp := z_cp s; z_wwait := z_wwait s; z_wwoken := v; z_wsort := z_wsort s; z_wclcur := z_wclcur s; z_wclold := z_wclold s; z_wok := z_wok s; z_werr := z_werr s; z_nsyn := z_nsyn s; z_nasy := z_nasy s; z_nans := z_nans s; z_naret := z_naret s; z_nerr := z_nerr s |}.
 Definition set_wsort (v : nat) (s : state) : state :=
-  {| z_top := z_top s; z_mid := z_mid s; z_base := z_base s; z_closed := z_closed s; z_armed := z_armed s; z_incc := z_incc s; z_out := z_out s; z_onext := z_onext s; z_oready := z_oready s; z_q := z_q s; z_lk := z_lk s; z_mp := z_mp s; z_pongs := z_pongs s; z_pp := z_pp s; z_cp := z_cp s; z_wwait := z_wwait s; z_wwoken := z_wwoken s; z_wsort := v; z_wclcur := z_wclcur s; z_wclold := z_wclold s; z_wok := z_wok s; z_werr := z_werr s; z_nsyn := z_nsyn s; z_nasy := z_nasy s; z_nans := z_nans s; z_naret := z_naret s; z_nerr := z_nerr s |}.
+  {| z_top := z_top s; z_mid := z_mid s; z_base := z_base s; z_closed := z_closed s; z_armed := z_armed s; z_incc := z_incc s; z_out := z_out s; z_onext := z_onext s; z_oready := z_oready s; z_q := z_q s; z_lk := z_lk s; z_mp := z_mp s; z_pongs := z_pongs s; z_hp := z_hp s; z_pp := z_pp s; z_cp := z_cp s; z_wwait := z_wwait s; z_wwoken := z_wwoken s; z_wsort := v; z_wclcur := z_wclcur s; z_wclold := z_wclold s; z_wok := z_wok s; z_werr := z_werr s; z_nsyn := z_nsyn s; z_nasy := z_nasy s; z_nans := z_nans s; z_naret := z_naret s; z_nerr := z_nerr s |}.
 Definition set_wclcur (v : nat) (s : state) : state :=
-  {| z_top := z_top s; z_mid := z_mid s; z_base := z_base s; z_closed := z_closed s; z_armed := z_armed s; z_incc := z_incc s; z_out := z_out s; z_onext := z_onext s; z_oready := z_oready s; z_q := z_q s; z_lk := z_lk s; z_mp := z_mp s; z_pongs := z_pongs s; z_pp := z_pp s; z_cp := z_cp s; z_wwait := z_wwait s; z_wwoken := z_wwoken s; z_wsort := z_wsort s; z_wclcur := v; z_wclold := z_wclold s; z_wok := z_wok s; z_werr := z_werr s; z_nsyn := z_nsyn s; z_nasy := z_nasy s; z_nans := z_nans s; z_naret := z_naret s; z_nerr := z_nerr s |}.
+  {| z_top := z_top s; z_mid := z_mid s; z_base := z_base s; z_closed := z_closed s; z_armed := z_armed s; z_incc := z_incc s; z_out := z_out s; z_onext := z_onext s; z_oready := z_oready s; z_q := z_q s; z_lk := z_lk s; z_mp := z_mp s; z_pongs := z_pongs s; z_hp := z_hp s; z_pp := z_pp s; z_cp := z_cp s; z_wwait := z_wwait s; z_wwoken := z_wwoken s; z_wsort := z_wsort s; z_wclcur := v; z_wclold := z_wclold s; z_wok := z_wok s; z_werr := z_werr s; z_nsyn := z_nsyn s; z_nasy := z_nasy s; z_nans := z_nans s; z_naret := z_naret s; z_nerr := z_nerr s |}.
 Definition set_wclold (v : nat) (s : state) : state :=
-  {| z_top := z_top s; z_mid := z_mid s; z_base := z_base s; z_closed := z_closed s; z_armed := z_armed s; z_incc := z_incc s; z_out := z_out s; z_onext := z_onext s; z_oready := z_oready s; z_q := z_q s; z_lk := z_lk s; z_mp := z_mp s; z_pongs := z_pongs s; z_pp := z_pp s; z_cp := z_cp s; z_wwait := z_wwait s; z_wwoken := z_wwoken s; z_wsort := z_wsort s; z_wclcur := z_wclcur s; z_wclold := v; z_wok := z_wok s; z_werr := z_werr s; z_nsyn := z_nsyn s; z_nasy := z_nasy s; z_nans := z_nans s; z_naret := z_naret s; z_nerr := z_nerr s |}.
+  {| z_top := z_top s; z_mid := z_mid s; z_base := z_base s; z_closed := z_closed s; z_armed := z_armed s; z_incc := z_incc s; z_out := z_out s; z_onext := z_onext s; z_oready := z_oready s; z_q := z_q s; z_lk := z_lk s; z_mp := z_mp s; z_pongs := z_pongs s; z_hp := z_hp s; z_pp := z_pp s; z_cp := z_cp s; z_wwait := z_wwait s; z_wwoken := z_wwoken s; z_wsort := z_wsort s; z_wclcur := z_wclcur s; z_wclold := v; z_wok := z_wok s; z_werr := z_werr s; z_nsyn := z_nsyn s; z_nasy := z_nasy s; z_nans := z_nans s; z_naret := z_naret s; z_nerr := z_nerr s |}.
 Definition set_wok (v : nat) (s : state) : state :=
-  {| z_top := z_top s; z_mid := z_mid s; z_base := z_base s; z_closed := z_closed s; z_armed := z_armed s; z_incc := z_incc s; z_out := z_out s; z_onext := z_onext s; z_oready := z_oready s; z_q := z_q s; z_lk := z_lk s; z_mp := z_mp s; z_pongs := z_pongs s; z_pp := z_pp s; z_cp := z_cp s; z_wwait := z_wwait s; z_wwoken := z_wwoken s; z_wsort := z_wsort s; z_wclcur := z_wclcur s; z_wclold := z_wclold s; z_wok := v; z_werr := z_werr s; z_nsyn := z_nsyn s; z_nasy := z_nasy s; z_nans := z_nans s; z_naret := z_naret s; z_nerr := z_nerr s |}.
+  {| z_top := z_top s; z_mid := z_mid s; z_base := z_base s; z_closed := z_closed s; z_armed := z_armed s; z_incc := z_incc s; z_out := z_out s; z_onext := z_onext s; z_oready := z_oready s; z_q := z_q s; z_lk := z_lk s; z_mp := z_mp s; z_pongs := z_pongs s; z_hp := z_hp s; z_pp := z_pp s; z_cp := z_cp s; z_wwait := z_wwait s; z_wwoken := z_wwoken s; z_wsort := z_wsort s; z_wclcur := z_wclcur s; z_wclold := z_wclold s; z_wok := v; z_werr := z_werr s; z_nsyn := z_nsyn s; z_nasy := z_nasy s; z_nans := z_nans s; z_naret := z_naret s; z_nerr := z_nerr s |}.
 Definition set_werr (v : nat) (s : state) : state :=
-  {| z_top := z_top s; z_mid := z_mid s; z_base := z_base s; z_closed := z_closed s; z_armed := z_armed s; z_incc := z_incc s; z_out := z_out s; z_onext := z_onext s; z_oready := z_oready s; z_q := z_q s; z_lk := z_lk s; z_mp := z_mp s; z_pongs := z_pongs s; z_pp := z_pp s; z_cp := z_cp s; z_wwait := z_wwait s; z_wwoken := z_wwoken s; z_wsort := z_wsort s; z_wclcur := z_wclcur s; z_wclold := z_wclold s; z_wok := z_wok s; z_werr := v; z_nsyn := z_nsyn s; z_nasy := z_nasy s; z_nans := z_nans s; z_naret := z_naret s; z_nerr := z_nerr s |}.
+  {| z_top := z_top s; z_mid := z_mid s; z_base := z_base s; z_closed := z_closed s; z_armed := z_armed s; z_incc := z_incc s; z_out := z_out s; z_onext := z_onext s; z_oready := z_oready s; z_q := z_q s; z_lk := z_lk s; z_mp := z_mp s; z_pongs := z_pongs s; z_hp := z_hp s; z_pp := z_pp s; z_cp := z_cp s; z_wwait := z_wwait s; z_wwoken := z_wwoken s; z_wsort := z_wsort s; z_wclcur := z_wclcur s; z_wclold := z_wclold s; z_wok := z_wok s; z_werr := v; z_nsyn := z_nsyn s; z_nasy := z_nasy s; z_nans := z_nans s; z_naret := z_naret s; z_nerr := z_nerr s |}.
 Definition set_nsyn (v : nat) (s : state) : state :=
-  {| z_top := z_top s; z_mid := z_mid s; z_base := z_base s; z_closed := z_closed s; z_armed := z_armed s; z_incc := z_incc s; z_out := z_out s; z_onext := z_onext s; z_oready := z_oready s; z_q := z_q s; z_lk := z_lk s; z_mp := z_mp s; z_pongs := z_pongs s; z_pp := z_pp s; z_cp := z_cp s; z_wwait := z_wwait s; z_wwoken := z_wwoken s; z_wsort := z_wsort s; z_wclcur := z_wclcur s; z_wclold := z_wclold s; z_wok := z_wok s; z_werr := z_werr s; z_nsyn := v; z_nasy := z_nasy s; z_nans := z_nans s; z_naret := z_naret s; z_nerr := z_nerr s |}.
+  {| z_top := z_top s; z_mid := z_mid s; z_base := z_base s; z_closed := z_closed s; z_armed := z_armed s; z_incc := z_incc s; z_out := z_out s; z_onext := z_onext s; z_oready := z_oready s; z_q := z_q s; z_lk := z_lk s; z_mp := z_mp s; z_pongs := z_pongs s; z_hp := z_hp s; z_pp := z_pp s; z_cp := z_cp s; z_wwait := z_wwait s; z_wwoken := z_wwoken s; z_wsort := z_wsort s; z_wclcur := z_wclcur s; z_wclold := z_wclold s; z_wok := z_wok s; z_werr := z_werr s; z_nsyn := v; z_nasy := z_nasy s; z_nans := z_nans s; z_naret := z_naret s; z_nerr := z_nerr s |}.
 Definition set_nasy (v : nat) (s : state) : state :=
-  {| z_top := z_top s; z_mid := z_mid s; z_base := z_base s; z_closed := z_closed s; z_armed := z_armed s; z_incc := z_incc s; z_out := z_out s; z_onext := z_onext s; z_oready := z_oready s; z_q := z_q s; z_lk := z_lk s; z_mp := z_mp s; z_pongs := z_pongs s; z_pp := z_pp s; z_cp := z_cp s; z_wwait := z_wwait s; z_wwoken := z_wwoken s; z_wsort := z_wsort s; z_wclcur := z_wclcur s; z_wclold := z_wclold s; z_wok := z_wok s; z_werr := z_werr s; z_nsyn := z_nsyn s; z_nasy := v; z_nans := z_nans s; z_naret := z_naret s; z_nerr := z_nerr s |}.
+  {| z_top := z_top s; z_mid := z_mid s; z_base := z_base s; z_closed := z_closed s; z_armed := z_armed s; z_incc := z_incc s; z_out := z_out s; z_onext := z_onext s; z_oready := z_oready s; z_q := z_q s; z_lk := z_lk s; z_mp := z_mp s; z_pongs := z_pongs s; z_hp := z_hp s; z_pp := z_pp s; z_cp := z_cp s; z_wwait := z_wwait s; z_wwoken := z_wwoken s; z_wsort := z_wsort s; z_wclcur := z_wclcur s; z_wclold := z_wclold s; z_wok := z_wok s; z_werr := z_werr s; z_nsyn := z_nsyn s; z_nasy := v; z_nans := z_nans s; z_naret := z_naret s; z_nerr := z_nerr s |}.
 Definition set_nans (v : nat) (s : state) : state :=
-  {| z_top := z_top s; z_mid := z_mid s; z_base := z_base s; z_closed := z_closed s; z_armed := z_armed s; z_incc := z_incc s; z_out := z_out s; z_onext := z_onext s; z_oready := z_oready s; z_q := z_q s; z_lk := z_lk s; z_mp := z_mp s; z_pongs := z_pongs s; z_pp := z_pp s; z_cp := z_cp s; z_wwait := z_wwait s; z_wwoken := z_wwoken s; z_wsort := z_wsort s; z_wclcur := z_wclcur s; z_wclold := z_wclold s; z_wok := z_wok s; z_werr := z_werr s; z_nsyn := z_nsyn s; z_nasy := z_nasy s; z_nans := v; z_naret := z_naret s; z_nerr := z_nerr s |}.
+  {| z_top := z_top s; z_mid := z_mid s; z_base := z_base s; z_closed := z_closed s; z_armed := z_armed s; z_incc := z_incc s; z_out := z_out s; z_onext := z_onext s; z_oready := z_oready s; z_q := z_q s; z_lk := z_lk s; z_mp := z_mp s; z_pongs := z_pongs s; z_hp := z_hp s; z_pp := z_pp s; z_cp := z_cp s; z_wwait := z_wwait s; z_wwoken := z_wwoken s; z_wsort := z_wsort s; z_wclcur := z_wclcur s; z_wclold := z_wclold s; z_wok := z_wok s; z_werr := z_werr s; z_nsyn := z_nsyn s; z_nasy := z_nasy s; z_nans := v; z_naret := z_naret s; z_nerr := z_nerr s |}.
 Definition set_naret (v : nat) (s : state) : state :=
-  {| z_top := z_top s; z_mid := z_mid s; z_base := z_base s; z_closed := z_closed s; z_armed := z_armed s; z_incc := z_incc s; z_out := z_out s; z_onext := z_onext s; z_oready := z_oready s; z_q := z_q s; z_lk := z_lk s; z_mp := z_mp s; z_pongs := z_pongs s; z_pp := z_pp s; z_cp := z_cp s; z_wwait := z_wwait s; z_wwoken := z_wwoken s; z_wsort := z_wsort s; z_wclcur := z_wclcur s; z_wclold := z_wclold s; z_wok := z_wok s; z_werr := z_werr s; z_nsyn := z_nsyn s; z_nasy := z_nasy s; z_nans := z_nans s; z_naret := v; z_nerr := z_nerr s |}.
+  {| z_top := z_top s; z_mid := z_mid s; z_base := z_base s; z_closed := z_closed s; z_armed := z_armed s; z_incc := z_incc s; z_out := z_out s; z_onext := z_onext s; z_oready := z_oready s; z_q := z_q s; z_lk := z_lk s; z_mp := z_mp s; z_pongs := z_pongs s; z_hp := z_hp s; z_pp := z_pp s; z_cp := z_cp s; z_wwait := z_wwait s; z_wwoken := z_wwoken s; z_wsort := z_wsort s; z_wclcur := z_wclcur s; z_wclold := z_wclold s; z_wok := z_wok s; z_werr := z_werr s; z_nsyn := z_nsyn s; z_nasy := z_nasy s; z_nans := z_nans s; z_naret := v; z_nerr := z_nerr s |}.
 Definition set_nerr (v : nat) (s : state) : state :=
-  {| z_top := z_top s; z_mid := z_mid s; z_base := z_base s; z_closed := z_closed s; z_armed := z_armed s; z_incc := z_incc s; z_out := z_out s; z_onext := z_onext s; z_oready := z_oready s; z_q := z_q s; z_lk := z_lk s; z_mp := z_mp s; z_pongs := z_pongs s; z_pp := z_pp s; z_cp := z_cp s; z_wwait := z_wwait s; z_wwoken := z_wwoken s; z_wsort := z_wsort s; z_wclcur := z_wclcur s; z_wclold := z_wclold s; z_wok := z_wok s; z_werr := z_werr s; z_nsyn := z_nsyn s; z_nasy := z_nasy s; z_nans := z_nans s; z_naret := z_naret s; z_nerr := v |}.
+  {| z_top := z_top s; z_mid := z_mid s; z_base := z_base s; z_closed := z_closed s; z_armed := z_armed s; z_incc := z_incc s; z_out := z_out s; z_onext := z_onext s; z_oready := z_oready s; z_q := z_q s; z_lk := z_lk s; z_mp := z_mp s; z_pongs := z_pongs s; z_hp := z_hp s; z_pp := z_pp s; z_cp := z_cp s; z_wwait := z_wwait s; z_wwoken := z_wwoken s; z_wsort := z_wsort s; z_wclcur := z_wclcur s; z_wclold := z_wclold s; z_wok := z_wok s; z_werr := z_werr s; z_nsyn := z_nsyn s; z_nasy := z_nasy s; z_nans := z_nans s; z_naret := z_naret s; z_nerr := v |}.
 
 Definition init (c : config) : state :=
   {| z_top := 0; z_mid := false; z_base := false; z_closed := false;
      z_armed := false; z_incc := false; z_out := None; z_onext := 0; z_oready := false;
      z_q := []; z_lk := false;
-     z_mp := MReply; z_pongs := 0; z_pp := (if c_ll c then PTop else PDone); z_cp := CIdle;
+     z_mp := MReply; z_pongs := 0; z_hp := false; z_pp := (if c_ll c then PTop else PDone); z_cp := CIdle;
      z_wwait := 0; z_wwoken := 0; z_wsort := 0; z_wclcur := 0; z_wclold := 0; z_wok := 0; z_werr := 0;
      z_nsyn := 0; z_nasy := 0; z_nans := 0; z_naret := 0; z_nerr := 0 |}.
 
@@ -269,10 +273,14 @@ Definition step_gen (m : mutation) (c : config) (s : state) (l : step_label) : o
       match z_mp s with
       | MCheck =>
           guard (negb (z_lk s))
-            (if z_top s =? 0 then
-               set_mp MSelect (set_armed true (set_incc false
-                 (set_wclold (z_wclold s + z_wclcur s) (set_wclcur 0 s))))
-             else set_mp MDrain s)
+            (let retry := match m with                      (* retryHandover; Mut7: ignored *)
+                          | Mut7 => false
+                          | _ => z_hp s && z_mid s && negb (z_base s)
+                          end in
+             if (z_top s =? 0) && negb retry then
+               set_mp MSelect (set_hp false (set_armed true (set_incc false
+                 (set_wclold (z_wclold s + z_wclcur s) (set_wclcur 0 s)))))
+             else set_mp MDrain (set_hp false s))
       | _ => None end
   | LMSelStop =>      (* 233-235: return stopped; the deferred exit handler runs *)
       match z_mp s with MSelect => guard (z_closed s) (set_mp MExit s) | _ => None end
@@ -302,15 +310,15 @@ Definition step_gen (m : mutation) (c : config) (s : state) (l : step_label) : o
   | LMHandover =>     (* 338-388 *)
       match z_mp s with
       | MHandover =>
-          if negb (c_ll c) then Some (set_mp MReply s)       (* 339-341 *)
+          if negb (c_ll c) then Some (set_mp MReply (set_hp false s))   (* no lower level *)
           else
             guard (negb (z_lk s))
               (let s1 :=
-                 if negb (z_base s) && z_mid s then          (* 345-370 *)
+                 if negb (z_base s) && z_mid s then          (* hand-over; handoverPending = false *)
                    broadcast_base
-                     (set_onext (S (z_onext s)) (set_out (Some (z_onext s))
-                        (set_mid false (set_base true s))))
-                 else s in
+                     (set_hp false (set_onext (S (z_onext s)) (set_out (Some (z_onext s))
+                        (set_mid false (set_base true s)))))
+                 else set_hp (z_mid s) s in                  (* skipped: handoverPending = mid != nil *)
                if c_over c (z_top s1) (z_mid s1) (z_base s1) then   (* 377-386 *)
                  match z_out s1 with
                  | Some g => set_mp (MWaitOut g) (set_oready false s1)
@@ -406,6 +414,7 @@ Definition step_mut3 := step_gen Mut3.   (* persister waits on baseCond after a 
 Definition step_mut4 := step_gen Mut4.   (* DeferredSort writer: relock and Wait without re-check *)
 Definition step_mut5 := step_gen Mut5.   (* exiting merger leaves queued pings unanswered *)
 Definition step_mut6 := step_gen Mut6.   (* NotifyMerger without the stop cases *)
+Definition step_mut7 := step_gen Mut7.   (* merger goes to sleep although a hand-over is pending *)
 
 Fixpoint run_gen (m : mutation) (c : config) (s : state) (ls : list step_label) : option state :=
   match ls with
